@@ -1721,3 +1721,111 @@ func ruleR02k(c *Ctx) {
 	}
 	_ = fd
 }
+
+// R02m: a block ({let}, {param}, {log} content) is rendered into a buffer of its own. Wherever the renderer
+// redirects its writer (an assignment to state.wr outside a state literal) the new writer is the address of
+// a variable declared fresh in that function (or a new allocation), or the saved original being restored.
+// A buffer kept in the state, in a pool or in a package variable is shared with the block being rendered
+// around it, or with the next render.
+func ruleR02m(c *Ctx) {
+	p := c.pkg("soyhtml")
+	if p == nil {
+		return
+	}
+	info := p.TypesInfo
+	n := 0
+	for _, fd := range c.allFuncDecls("soyhtml") {
+		ord := 0
+		// locals declared without a value from elsewhere: var x T / x := T{} / x := new(T) / x := &T{}
+		fresh := map[types.Object]bool{}
+		saved := map[types.Object]bool{} // x := s.wr
+		ast.Inspect(fd.Body, func(x ast.Node) bool {
+			switch s := x.(type) {
+			case *ast.ValueSpec:
+				for i, nm := range s.Names {
+					o := info.Defs[nm]
+					if o == nil {
+						continue
+					}
+					if len(s.Values) == 0 {
+						fresh[o] = true
+					} else if i < len(s.Values) {
+						classifyWriterInit(s.Values[i], o, fresh, saved, info)
+					}
+				}
+			case *ast.AssignStmt:
+				if s.Tok == token.DEFINE && len(s.Lhs) == len(s.Rhs) {
+					for i, l := range s.Lhs {
+						if id, ok := l.(*ast.Ident); ok && info.Defs[id] != nil {
+							classifyWriterInit(s.Rhs[i], info.Defs[id], fresh, saved, info)
+						}
+					}
+				}
+			}
+			return true
+		})
+		ast.Inspect(fd.Body, func(x ast.Node) bool {
+			as, ok := x.(*ast.AssignStmt)
+			if !ok || len(as.Lhs) != len(as.Rhs) {
+				return true
+			}
+			for i, l := range as.Lhs {
+				fv := fieldOf(l, info)
+				if fv == nil || fv.Name() != "wr" {
+					continue
+				}
+				n++
+				ord++
+				r := ast.Unparen(as.Rhs[i])
+				good := false
+				if id, ok := r.(*ast.Ident); ok {
+					o := info.Uses[id]
+					good = saved[o] || (fresh[o] && isPointer(o.Type()))
+				}
+				if ue, ok := r.(*ast.UnaryExpr); ok && ue.Op == token.AND {
+					if id, ok := ast.Unparen(ue.X).(*ast.Ident); ok && fresh[info.Uses[id]] {
+						good = true
+					}
+					if _, ok := ast.Unparen(ue.X).(*ast.CompositeLit); ok {
+						good = true
+					}
+				}
+				if call, ok := r.(*ast.CallExpr); ok {
+					if id, ok := call.Fun.(*ast.Ident); ok && id.Name == "new" {
+						good = true
+					}
+				}
+				c.check(good, "R02m", fmt.Sprintf("%s redirects-writer#%d", c.declKey("soyhtml", fd), ord), as.Pos(),
+					"the writer swapped in is a buffer declared fresh in this function, or the saved original",
+					"the renderer's writer is redirected to "+exprKey(as.Rhs[i])+", which is not a buffer created for this one block: a block rendered while another is open (or the next render) writes into the same buffer")
+			}
+			return true
+		})
+	}
+	c.floor("R02m", "writer redirections in the renderer", 2, n)
+}
+
+func isPointer(t types.Type) bool {
+	_, ok := t.Underlying().(*types.Pointer)
+	return ok
+}
+
+func classifyWriterInit(v ast.Expr, o types.Object, fresh, saved map[types.Object]bool, info *types.Info) {
+	v = ast.Unparen(v)
+	switch e := v.(type) {
+	case *ast.CompositeLit:
+		fresh[o] = true
+	case *ast.UnaryExpr:
+		if _, ok := ast.Unparen(e.X).(*ast.CompositeLit); ok && e.Op == token.AND {
+			fresh[o] = true
+		}
+	case *ast.CallExpr:
+		if id, ok := e.Fun.(*ast.Ident); ok && id.Name == "new" {
+			fresh[o] = true
+		}
+	case *ast.SelectorExpr:
+		if fv := fieldOf(e, info); fv != nil && fv.Name() == "wr" {
+			saved[o] = true
+		}
+	}
+}
